@@ -203,7 +203,8 @@ def fault_points(case, note):
 @st.composite
 def kernel_case(draw, tier):
     pel = draw(D.dir_pel(draw(st.integers(0x50000000, 0x500000FF)), selectable=True))
-    return {'pel': pel, 'variant': draw(st.sampled_from(['devfull', 'fsize', 'fsize'])),
+    return {'pel': pel, 'variant': draw(st.sampled_from(['devfull', 'fsize', 'fsize', 'closed-stdout'])),
+            'hexmode': draw(st.booleans()),
             'limit_permille': draw(st.integers(0, 1100)), 'optimize': draw(st.booleans()),
             'mode': draw(st.sampled_from(['json', 'json-o']))}
 
@@ -222,6 +223,21 @@ def kernel_faults(case, note):
             with open(path, 'wb') as f:
                 f.write(blob)
         put()
+        if case['variant'] == 'closed-stdout':
+            # the process is started with file descriptor 1 closed: nothing can be displayed
+            def pre_close():
+                os.close(1)
+            argv = ['-f', path, '-c'] + (['-x'] if case.get('hexmode') else [])
+            r = cli.real(argv, optimize=case['optimize'], preexec_fn=pre_close, stdout=False)
+            note.extra_eval += 1
+            if not os.path.exists(path):
+                raise Violation('C12.removed-without-output', 'python %speltool.py %s with standard output closed: the '
+                                'input file was removed although nothing could be displayed; exit status %s, stderr %r'
+                                % ('-O ' if case['optimize'] else '', ' '.join(argv[:1] + argv[2:]), r.status, r.err[-200:]),
+                                sig='C12.removed:file:closed-stdout')
+            note.label('closed-stdout')
+            note.nontrivial = True
+            return
         if case['variant'] == 'devfull':
             # reference: what the document looks like
             ref = cli.real(['-f', path], optimize=case['optimize'])
